@@ -506,6 +506,8 @@ static int _bisect_forward_serialno(OggVorbis_File *vf,
     while(endserial != serialno){
       endserial = serialno;
       searched=_get_prev_page_serial(vf,searched,currentno_list,currentnos,&endserial,&endgran);
+      if(searched<0)return(searched); /* I/O error; do not build the
+                                         tables from a stale granpos */
     }
 
     vf->links=m+1;
@@ -566,6 +568,7 @@ static int _bisect_forward_serialno(OggVorbis_File *vf,
     while(testserial != serialno){
       testserial = serialno;
       searched = _get_prev_page_serial(vf,searched,currentno_list,currentnos,&testserial,&searchgran);
+      if(searched<0)return(searched);
     }
 
     ret=_seek_helper(vf,next);
